@@ -2,6 +2,7 @@ package wpool
 
 import (
 	"context"
+	"github.com/glebziz/fs_db/internal/utils/vhook"
 	"time"
 )
 
@@ -20,6 +21,7 @@ func (p *Pool) Send(ctx context.Context, e Event) {
 		return
 	case p.ch <- e:
 	case <-time.After(p.opts.SendDuration):
+		vhook.At("wpool.send.timeout")
 		p.lazySend(e)
 	}
 }
